@@ -75,10 +75,20 @@ fn ff_dep_sum(tt: &[bool], nv: usize, order: &[usize], w: &[(u128, u128)]) -> u1
     }
     unreachable!()
 }
+/// the weights are installed in one of three ways, chosen from the weights themselves: `WmcParams::new` for all; `default` +
+/// `set_weight` in descending label order (the table grows past its end); `new` with mirrored pairs, then overwritten by `set_weight`
 fn ff_params(nv: usize, w: &[(u128, u128)]) -> WmcParams<FiniteField<P>> {
+    let how = w.iter().map(|x| x.1 % 3).sum::<u128>() % 3;
     let mut hm: HashMap<VarLabel, (FiniteField<P>, FiniteField<P>)> = HashMap::new();
-    for i in 0..nv { hm.insert(VarLabel::new(i as u64), (FiniteField::new(w[i].0), FiniteField::new(w[i].1))); }
-    WmcParams::new(hm)
+    for i in 0..nv {
+        let (l, h) = if how == 2 { (w[i].1, w[i].0) } else { w[i] };
+        hm.insert(VarLabel::new(i as u64), (FiniteField::new(l), FiniteField::new(h)));
+    }
+    match how {
+        0 => WmcParams::new(hm),
+        1 => { let mut p = WmcParams::default(); for i in (0..nv).rev() { p.set_weight(VarLabel::new(i as u64), FiniteField::new(w[i].0), FiniteField::new(w[i].1)); } p }
+        _ => { let mut p = WmcParams::new(hm); for i in 0..nv { p.set_weight(VarLabel::new(i as u64), FiniteField::new(w[i].0), FiniteField::new(w[i].1)); } p }
+    }
 }
 fn real_params(nv: usize, k: &[u64]) -> WmcParams<RealSemiring> {
     let mut hm: HashMap<VarLabel, (RealSemiring, RealSemiring)> = HashMap::new();
